@@ -2,16 +2,13 @@
    Every statement is spelled out here (it is convertible to the `*_statement` definition of Proofs.v, where the
    comments explaining each clause live).  Over R: `Rops` is the real-number instance of the operations record.
 
-   C07_renumbering_partial: proved for every per-edge / per-face / per-corner / per-cell quantity under vertex
-     renumbering, and for rotating the vertex list of a triangle / quad (+ barycentre of any polygon). MISSING for the
-     full statement: the vertex-indexed accumulations (degree, angle_defects, vertex_normals, faces->vertices
-     interpolation) under vertex renumbering and the fan area of an n-gon (n >= 5) under rotation - those are
-     tested by the correspondence and the oracle only.
-   C07_face_normal_rotation_refuted: a recorded finding (known_findings.d/C07.json). *)
+   The two `_refuted` theorems are recorded findings (known_findings.d/C07.json): the normal of a skew quad depends on
+   where its vertex list starts; the absolute parallelism guard denies small triangles their circumcentre. *)
 From Coq Require Import ZArith List Bool Reals.
 Require Import MV.Lib.Base MV.C07.Model MV.C07.Gen MV.C07.Mesh MV.C07.Proofs_Base MV.C07.Proofs_Rigid MV.C07.Proofs_MeshRigid
   MV.C07.Proofs_Angles MV.C07.Proofs_Interp MV.C07.Proofs_GB MV.C07.Proofs_Renum MV.C07.Proofs_Count MV.C07.Proofs_GBfull
-  MV.C07.Proofs_Findings MV.C07.Proofs_Circum MV.C07.Proofs.
+  MV.C07.Proofs_Findings MV.C07.Proofs_Circum MV.C07.Proofs_Keyed MV.C07.Proofs_RenumV MV.C07.Proofs_FacePerm
+  MV.C07.Proofs_FanRot MV.C07.Proofs_RenumFull MV.C07.Proofs_MeshScale MV.C07.Proofs_C2F MV.C07.Proofs.
 Import ListNotations.
 Open Scope R_scope.
 
@@ -77,7 +74,8 @@ Proof. exact rigid_invariance_proof. Qed.
 Print Assumptions C07_rigid_invariance.
 
 Theorem C07_scaling :
-  forall s : R, 0 < s -> let sc := scl s in
+  (* formulas *)
+  (forall s : R, 0 < s -> let sc := scl s in
   (forall A B, g_edge_length Rops (sc A) (sc B) = s * g_edge_length Rops A B) /\
   (forall A B, g_edge_middle Rops (sc A) (sc B) = sc (g_edge_middle Rops A B)) /\
   (forall A B C, g_triangle_area Rops (sc A) (sc B) (sc C) = s * s * g_triangle_area Rops A B C) /\
@@ -88,29 +86,92 @@ Theorem C07_scaling :
   (forall A B C D, g_cell_volume Rops (sc A) (sc B) (sc C) (sc D) = s * s * s * g_cell_volume Rops A B C D) /\
   (forall l, g_face_bary Rops (map sc l) = sc (g_face_bary Rops l)) /\
   (forall l, g_cell_bary Rops (map sc l) = sc (g_cell_bary Rops l)) /\
-  (forall l, g_barycenter Rops (map sc l) = sc (g_barycenter Rops l)).
+  (forall l, g_barycenter Rops (map sc l) = sc (g_barycenter Rops l))) /\
+  (* every attribute of the scaled mesh *)
+  (forall (s : R) (m : mesh R), 0 < s -> wf_mesh m -> let sc := scl s in let m' := map_mesh sc m in
+  edge_length Rops m' = map (Rmult s) (edge_length Rops m) /\
+  edge_middle_point Rops m' = map sc (edge_middle_point Rops m) /\
+  face_area Rops m' = map (Rmult (s * s)) (face_area Rops m) /\
+  face_barycenter Rops m' = map sc (face_barycenter Rops m) /\
+  corner_pairs Rops m' = map (fun p => (s * s * fst p, s * s * snd p)) (corner_pairs Rops m) /\
+  map atan2_pair (corner_pairs Rops m') = map atan2_pair (corner_pairs Rops m) /\
+  degree m' = degree m /\
+  (forall zb pi ang, angle_defects Rops zb pi ang m' = angle_defects Rops zb pi ang m) /\
+  euler_characteristic m' = euler_characteristic m /\
+  cell_volume Rops m' = map (Rmult (s * s * s)) (cell_volume Rops m) /\
+  cell_barycenter Rops m' = map sc (cell_barycenter Rops m) /\
+  (forall n, mean_edge_length Rops m' n = s * mean_edge_length Rops m n) /\
+  (forall n, mean_face_area Rops m' n = s * s * mean_face_area Rops m n) /\
+  (forall n, mean_cell_volume Rops m' n = s * s * s * mean_cell_volume Rops m n) /\
+  total_area Rops m' = s * s * total_area Rops m /\
+  barycenter Rops m' = sc (barycenter Rops m) /\
+  (* the first three vertices of every face are not collinear: unit normals, cotangents, vertex normals *)
+  (faces_nondegenerate m ->
+     face_normals Rops m' = face_normals Rops m /\
+     ((forall F, In F (faces m) -> zlen F = 3%Z) -> cotangent Rops m' = cotangent Rops m /\ cotan_weights Rops m' = cotan_weights Rops m) /\
+     (forall ang, vertex_normals Rops WUniform ang m' = vertex_normals Rops WUniform ang m /\
+                  vertex_normals Rops WAngle ang m' = vertex_normals Rops WAngle ang m) /\
+     ((forall f, (0 <= f < zlen (faces m))%Z -> 0 < znth (face_area Rops m) f 0) ->
+      (forall v, (0 <= v < zlen (verts m))%Z -> exists F, In F (faces m) /\ In v F) ->
+      forall ang, vertex_normals Rops WArea ang m' = vertex_normals Rops WArea ang m))).
 Proof. exact scaling_proof. Qed.
 Print Assumptions C07_scaling.
 
-Theorem C07_renumbering_partial :
-  (forall (m m' : mesh R) (sigma : Z -> Z), wf_mesh m ->
+Theorem C07_renumbering :
+  (* (a) renumbering the vertices by sigma (injective on the vertex range); the renumbered mesh may store an edge in
+         either orientation.  Per-edge/face/corner/cell attributes are unchanged, per-vertex attributes move with sigma *)
+  (forall (m m' : mesh R) (sigma : Z -> Z) (sw : Z * Z -> bool), wf_mesh m ->
+     let nV := zlen (verts m) in
+     zlen (verts m') = nV ->
+     (forall u v, (0 <= u < nV)%Z -> (0 <= v < nV)%Z -> sigma u = sigma v -> u = v) ->
+     (forall v, (0 <= v < nV)%Z -> (0 <= sigma v < nV)%Z) ->
      (forall v, in_rng m v -> P Rops m' (sigma v) = P Rops m v) ->
      faces m' = map (map sigma) (faces m) -> cells m' = map (map sigma) (cells m) ->
-     edges m' = map (fun e => (sigma (fst e), sigma (snd e))) (edges m) ->
-     edge_length Rops m' = edge_length Rops m /\ edge_middle_point Rops m' = edge_middle_point Rops m /\
-     face_area Rops m' = face_area Rops m /\ face_normals Rops m' = face_normals Rops m /\
-     face_barycenter Rops m' = face_barycenter Rops m /\ corner_pairs Rops m' = corner_pairs Rops m /\
-     cotangent Rops m' = cotangent Rops m /\ cell_volume Rops m' = cell_volume Rops m /\
-     cell_barycenter Rops m' = cell_barycenter Rops m /\ total_area Rops m' = total_area Rops m) /\
-  (* rotating the vertex list of a face *)
+     edges m' = map (fun e => if sw e then (sigma (snd e), sigma (fst e)) else (sigma (fst e), sigma (snd e))) (edges m) ->
+     (edge_length Rops m' = edge_length Rops m /\ edge_middle_point Rops m' = edge_middle_point Rops m /\
+      face_area Rops m' = face_area Rops m /\ face_normals Rops m' = face_normals Rops m /\
+      face_barycenter Rops m' = face_barycenter Rops m /\ corner_pairs Rops m' = corner_pairs Rops m /\
+      cotangent Rops m' = cotangent Rops m /\ cell_volume Rops m' = cell_volume Rops m /\
+      cell_barycenter Rops m' = cell_barycenter Rops m /\ total_area Rops m' = total_area Rops m) /\
+     (forall v, (0 <= v < nV)%Z ->
+        znth (degree m') (sigma v) 0%Z = znth (degree m) v 0%Z /\
+        znth (border_flags m') (sigma v) false = znth (border_flags m) v false /\
+        (forall zb pi ang, znth (angle_defects Rops zb pi ang m') (sigma v) 0 = znth (angle_defects Rops zb pi ang m) v 0) /\
+        (forall w ang, znth (vertex_normals Rops w ang m') (sigma v) (vzero Rops) = znth (vertex_normals Rops w ang m) v (vzero Rops)) /\
+        (forall w area ang fattr,
+           znth (interpolate_faces_to_vertices Rops 0 Rplus (smul_l Rops) Rdiv w area ang m' fattr) (sigma v) 0
+           = znth (interpolate_faces_to_vertices Rops 0 Rplus (smul_l Rops) Rdiv w area ang m fattr) v 0) /\
+        (forall w ang cattr,
+           match average_corners_to_vertices Rops 0 Rplus (smul_l Rops) Rdiv w ang m' cattr,
+                 average_corners_to_vertices Rops 0 Rplus (smul_l Rops) Rdiv w ang m cattr with
+           | Some l', Some l => znth l' (sigma v) 0 = znth l v 0
+           | None, None => True
+           | _, _ => False
+           end))) /\
+  (* (b) rotating the vertex list of a face: area of EVERY polygon (triangle, quad, fan of an n-gon - planar or not),
+         normal and cotangents of a triangle, barycentre of any polygon *)
   (forall A B C : V3, g_triangle_area Rops B C A = g_triangle_area Rops A B C /\
                       g_face_normal Rops B C A = g_face_normal Rops A B C /\
                       g_cot_face Rops B C A = tl (g_cot_face Rops A B C) ++ [hd 0 (g_cot_face Rops A B C)] /\
                       g_distance Rops A B = g_distance Rops B A) /\
   (forall A B C D : V3, g_quad_area Rops B C D A = g_quad_area Rops A B C D) /\
-  (forall a b : list V3, g_face_bary Rops (b ++ a) = g_face_bary Rops (a ++ b)).
+  (forall pts : list V3, g_face_area Rops (rot1 pts) = g_face_area Rops pts) /\
+  (forall a b : list V3, g_face_bary Rops (b ++ a) = g_face_bary Rops (a ++ b)) /\
+  (* (c) permuting the face list and rotating each face (drel), every face carrying its value, its area weight and its
+         corner-angle weights along: the faces->vertices accumulation is unchanged, for every weighting, for scalar and
+         for vector (normals) attributes - one generic lemma on commutative accumulation (Proofs_FacePerm) *)
+  (forall (w : weighting) (D D' : list (@dface R R)) (mm mm' : mesh R),
+     Forall wfd D -> Forall wfd D' -> drel D D' -> faces mm = d_faces D -> faces mm' = d_faces D' ->
+     zlen (verts mm') = zlen (verts mm) ->
+     interpolate_faces_to_vertices Rops 0 Rplus (smul_l Rops) Rdiv w (d_areas D') (d_angs D') mm' (d_vals D')
+     = interpolate_faces_to_vertices Rops 0 Rplus (smul_l Rops) Rdiv w (d_areas D) (d_angs D) mm (d_vals D)) /\
+  (forall (w : weighting) (D D' : list (@dface R V3)) (mm mm' : mesh R),
+     Forall wfd D -> Forall wfd D' -> drel D D' -> faces mm = d_faces D -> faces mm' = d_faces D' ->
+     zlen (verts mm') = zlen (verts mm) ->
+     interpolate_faces_to_vertices Rops (vzero Rops) (vadd Rops) (vscale Rops) (vdiv Rops) w (d_areas D') (d_angs D') mm' (d_vals D')
+     = interpolate_faces_to_vertices Rops (vzero Rops) (vadd Rops) (vscale Rops) (vdiv Rops) w (d_areas D) (d_angs D) mm (d_vals D)).
 Proof. exact renumbering_proof. Qed.
-Print Assumptions C07_renumbering_partial.
+Print Assumptions C07_renumbering.
 
 Theorem C07_angle_sum :
   (forall (m : mesh R) (a b c : Z), face_corner_pairs Rops m [a; b; c]
@@ -148,7 +209,9 @@ Theorem C07_interpolate_constant :
   (forall w ang, w = WUniform \/ w = WAngle -> (forall k, (0 <= k < Z.of_nat nC)%Z -> 0 < znth ang k 0) ->
      average_corners_to_vertices Rops 0 Rplus (smul_l Rops) Rdiv w ang m (repeat c nC) = Some (repeat c nV)) /\
   scatter_vertices_to_corners 0 m (repeat c nV) = repeat c nC /\
-  scatter_faces_to_corners 0 m (repeat c nF) = repeat c nC.
+  scatter_faces_to_corners 0 m (repeat c nF) = repeat c nC /\
+  (forall w ang, w = WUniform \/ w = WAngle -> (forall k, (0 <= k < Z.of_nat nC)%Z -> 0 < znth ang k 0) ->
+     average_corners_to_faces Rops 0 Rplus (smul_l Rops) Rdiv w ang m (repeat c nC) = Some (repeat c nF)).
 Proof. exact interpolate_constant_proof. Qed.
 Print Assumptions C07_interpolate_constant.
 
@@ -164,4 +227,9 @@ Theorem C07_face_normal_rotation_refuted :
     g_face_normal Rops A B C <> g_face_normal Rops B C D.
 Proof. exact face_normal_rotation_refuted. Qed.
 Print Assumptions C07_face_normal_rotation_refuted.
+
+Theorem C07_circumcenter_guard_refuted :
+  exists A B C : V3, 0 < n2 (cross (B -v A) (C -v A)) /\ g_circumcenter Rops A B C = None.
+Proof. exact circumcenter_guard_refuted. Qed.
+Print Assumptions C07_circumcenter_guard_refuted.
 
